@@ -98,8 +98,30 @@ def chain_cases(tier):
                     yield {"loop": loop, "locks": ["prio"] * n, "conds": [], "events": 1, "acts": acts}
 
 
+def window_cases(tier):
+    """two-lock chains in which an urgent task starts waiting at EVERY possible instant, in particular
+    inside a hand-over window (a lock released, its next owner woken but not yet run): A holds L0;
+    M holds L1 and queues on L0; X queues on L0; A releases; H (urgent) arrives on L1 after j steps"""
+    for loop in ("stock", "prio"):
+        for (pm, px, ph) in ((5, 3, -10), (5, 3, -5), (3, 3, -10), (5, 1, 0)):
+            for j in range(0, 12 if tier == "quick" else 16):
+                for spin in (0, 1):
+                    a = sect(0, ["do", ["sleep0"], ["do", ["sleep0"], ["end"]]])
+                    m = sect(1, sect(0, ["do", ["sleep0"], ["end"]]))
+                    x = ["do", ["sleep0"], sect(0, ["do", ["sleep0"], ["end"]])] if spin else sect(0, ["do", ["sleep0"], ["end"]])
+                    h = sect(1, ["do", ["sleep0"], ["end"]])
+                    y = sect(0, ["do", ["sleep0"], ["end"]])
+                    acts = [["spawn", ["prio", [6, 1]], a], ["spawn", ["prio", [pm, 1]], m], ["spawn", ["prio", [px, 1]], x],
+                            ["spawn", ["prio", [pm - 1, 1]], y]]
+                    acts += [["step"]] * j
+                    acts.append(["spawn", ["prio", [ph, 1]], h])
+                    acts += [["step"]] * 30
+                    yield {"loop": loop, "locks": ["prio", "prio"], "conds": [], "events": 0, "acts": acts}
+
+
 def gen(rng, tier):
     yield from chain_cases(tier)
+    yield from window_cases(tier)
     for _ in range(400 if tier == "quick" else 8000):
         yield gen_case(rng)
 
